@@ -20,8 +20,8 @@ from pathlib import Path
 VERIF = Path(__file__).resolve().parent.parent
 LEAN_DIR = VERIF / "lean"
 REPO = Path(os.environ.get("Y0_REPO", "/repo")).resolve()
-EVIDENCE_DIR = VERIF / "evidence"
-REPLAY_DIR = VERIF / "replays"
+EVIDENCE_DIR = Path(os.environ.get("VERIF_EVIDENCE_DIR", VERIF / "evidence"))
+REPLAY_DIR = Path(os.environ.get("VERIF_REPLAY_DIR", VERIF / "replays"))
 KNOWN_FINDINGS = VERIF / "known_findings.jsonl"
 ALLOWED_AXIOMS = {"propext", "Classical.choice", "Quot.sound"}
 
